@@ -365,3 +365,106 @@ pub fn stream_dend(opt: &HashMap<String, String>) -> i32 {
     fs::write(format!("{}/dend_{}_meta.json", dir, profile_name()), meta).unwrap();
     0
 }
+
+// ------------------------------------------------------------------ C API histories
+/// Client histories for the C API.  Expected outputs come from calling the Rust
+/// `linkage` directly (C15: the C API returns exactly that).
+pub fn stream_capi(opt: &HashMap<String, String>) -> i32 {
+    let seed = opt_u64(opt, "seed", 1);
+    let thorough = opt_str(opt, "tier", "quick") == "thorough";
+    let count = opt_u64(opt, "count", if thorough { 1200 } else { 300 }) as usize;
+    let shards = opt_u64(opt, "shards", 16) as usize;
+    let dir = opt_str(opt, "out", "build/streams");
+    let mut rng = Rng::new(seed.wrapping_mul(0x1000_0001).wrapping_add(23));
+    let mut sh = Shards::new(dir, "capi", shards);
+    let mut script = String::new();
+    let mut hist_ops = BTreeMap::new(); let mut hist_n = BTreeMap::new(); let mut hist_m = BTreeMap::new();
+    let mut distinct = HashSet::new(); let mut nontrivial = HashSet::new();
+    let mut samples: Vec<String> = vec![];
+    for i in 0..count {
+        let id = format!("c{}", i);
+        script.push_str(&format!("H {}\n", id));
+        let mut ops: Vec<String> = vec![];       // Coq side
+        let mut exp: Vec<i128> = vec![];
+        let mut live: Vec<usize> = vec![];
+        let mut has_input: Vec<bool> = vec![];
+        let mut results: Vec<Vec<i128>> = vec![];
+        let mut key: Vec<u64> = vec![];
+        let nops = rng.range(2, if thorough { 14 } else { 8 });
+        let mut creates = 0;
+        let mut cost = 0u64;
+        for _ in 0..nops {
+            let kind = if live.is_empty() { 0 } else { rng.below(7) };
+            match kind {
+                0 | 1 | 2 => {
+                    let wide = rng.below(3) != 0;
+                    let method = rng.below(7) as u8;
+                    let n = match rng.below(8) { 0 => 0, 1 => 1, 2 => 2, _ => rng.range(3, if wide { if thorough { 40 } else { 22 } } else { 8 }) };
+                    let fam = ["uniform", "lattice", "duppoints", "euclid", "allequal"][rng.below(5) as usize];
+                    let v = matrix_f64(&mut rng, n as usize, fam, wide);
+                    let bits = to_bits(&v, wide);
+                    let out = run_fresh_w(wide, 0, method, n, &bits);
+                    let steps = match out { Outcome::Ok { steps, .. } => steps, Outcome::Panic(..) => vec![] };
+                    // widen the float results exactly
+                    let mut r: Vec<i128> = vec![n as i128, steps.len() as i128];
+                    for s in &steps {
+                        let b = if wide { s.bits } else { (f32::from_bits(s.bits as u32) as f64).to_bits64() };
+                        r.extend_from_slice(&[s.c1 as i128, s.c2 as i128, b as i128, s.size as i128]);
+                    }
+                    let h = results.len();
+                    script.push_str(&format!("{} {} {} {} {}\n", if wide { "D" } else { "S" }, METHOD_NAMES[method as usize], n, bits.len(), join(&bits, " ")));
+                    ops.push(format!("[{};{};{}{}]", if wide { 0 } else { 5 }, method, n, bits.iter().map(|b| format!(";{}", b)).collect::<String>()));
+                    exp.push(0); exp.push(h as i128); exp.extend(r.iter()); exp.push(-1);
+                    results.push(r); live.push(h); has_input.push(true);
+                    creates += 1;
+                    cost += AlgoCase { algo: 0, method, wide, n, bits: vec![], family: "" }.model_cost();
+                    bump(&mut hist_ops, "create"); bump(&mut hist_n, &format!("{:02}", n)); bump(&mut hist_m, METHOD_NAMES[method as usize]);
+                    key.extend_from_slice(&[method as u64, n, wide as u64, hash64(&bits)]);
+                }
+                3 | 4 => {
+                    let h = live[rng.below(live.len() as u64) as usize];
+                    script.push_str(&format!("R {}\n", h));
+                    ops.push(format!("[1;{}]", h));
+                    exp.push(1); exp.extend(results[h].iter()); exp.push(-1);
+                    bump(&mut hist_ops, "read"); key.extend_from_slice(&[101, h as u64]);
+                }
+                5 => {
+                    let h = live[rng.below(live.len() as u64) as usize];
+                    script.push_str(&format!("X {}\n", h));
+                    ops.push(format!("[2;{}]", h));
+                    exp.push(2); exp.push(-1);
+                    has_input[h] = false;
+                    bump(&mut hist_ops, "scribble_free_input"); key.extend_from_slice(&[102, h as u64]);
+                }
+                _ => {
+                    let k = rng.below(live.len() as u64) as usize;
+                    let h = live.remove(k);
+                    script.push_str(&format!("F {}\n", h));
+                    ops.push(format!("[3;{}]", h));
+                    exp.push(2); exp.push(-1);
+                    bump(&mut hist_ops, "free"); key.extend_from_slice(&[103, h as u64]);
+                }
+            }
+        }
+        // every history ends by reading and freeing what is still live
+        for h in live.clone() {
+            script.push_str(&format!("R {}\nF {}\n", h, h));
+            ops.push(format!("[1;{}]", h)); exp.push(1); exp.extend(results[h].iter()); exp.push(-1);
+            ops.push(format!("[3;{}]", h)); exp.push(2); exp.push(-1);
+        }
+        let coq = format!("capiops {} [{}]", profile_code(), ops.join(";"));
+        sh.add(&id, cost.max(1), coq.clone(), &exp);
+        let k = hash64(&key);
+        distinct.insert(k);
+        if creates >= 2 { nontrivial.insert(k); }
+        if samples.len() < 2 && ops.len() <= 6 && coq.len() < 700 { samples.push(format!("{} -> {}", coq, join(&exp, " "))); }
+    }
+    sh.write(HEADER);
+    fs::write(format!("{}/capi_script.txt", dir), script).unwrap();
+    let meta = format!(
+        "{{\"stream\":\"capi\",\"profile\":{},\"seed\":{},\"evaluations\":{},\"distinct\":{},\"distinct_nontrivial\":{},\"ops\":{},\"sizes\":{},\"methods\":{},\"samples\":[{}]}}",
+        json_str(profile_name()), seed, count, distinct.len(), nontrivial.len(), json_hist(&hist_ops), json_hist(&hist_n), json_hist(&hist_m),
+        samples.iter().map(|s| json_str(s)).collect::<Vec<_>>().join(","));
+    fs::write(format!("{}/capi_{}_meta.json", dir, profile_name()), meta).unwrap();
+    0
+}
